@@ -360,8 +360,50 @@ def rule_R06_4(ctx):
     return r
 
 
+def rule_R06_5(ctx):
+    prog = ctx.prog
+    r = RuleResult("R06.5", "integers enter the program only through exact "
+                   "conversions: no lossy `as i64` cast and no inexact "
+                   "primitive in the lexer, the grammar actions or the evaluator",
+                   "a wrapping cast of a literal or length silently changes "
+                   "the integer a program denotes")
+    n = 0
+    fns = [f for f in prog.full_fns() if (not f.generated or "::__action" in f.path)]
+    for f in fns:
+        if f.from_expansion:
+            continue
+        for bb, i, pl, rv, sp in f.assigns():
+            if rv[0] == "cast" and rv[1] == "IntToInt" and rv[3] == "i64" \
+                    and rv[4] in ("u64", "usize", "u128", "i128", "isize"):
+                n += 1
+                r.fail("%s | lossy cast %s as i64" % (f.path, rv[4]),
+                       "%s converts a %s to i64 with `as`, which wraps values "
+                       "above i64::MAX" % (f.path, rv[4]), where=mir.span_loc(sp))
+        if f.generated:
+            for c in f.calls():
+                if not c.is_ptr and INEXACT.match(c.res or ""):
+                    n += 1
+                    r.fail("%s | primitive=%s" % (f.path, I64_METHOD.match(c.res).group(1)),
+                           "grammar action %s uses the inexact i64 primitive %s"
+                           % (f.path, c.res), where=c.loc)
+    conv = 0
+    for f in fns:
+        for c in f.calls():
+            d = c.declared or ""
+            if d in ("std::convert::TryInto::try_into", "std::convert::TryFrom::try_from") \
+                    and "i64" in (c.res_full or "") + (c.dstty or ""):
+                conv += 1
+            if (c.res or "").endswith("str::<impl str>::parse") and "i64" in (c.res_full or ""):
+                conv += 1
+    r.inst("checked conversions into i64 (try_into / parse): %d; lossy casts / inexact action primitives: %d" % (conv, n))
+    r.require_floor("checked conversions into i64", conv, 2)
+    if n == 0:
+        r.ok()
+    return r
+
+
 def run(ctx):
-    return [rule_R06_1(ctx), rule_R06_2(ctx), rule_R06_3(ctx), rule_R06_4(ctx)]
+    return [rule_R06_1(ctx), rule_R06_2(ctx), rule_R06_3(ctx), rule_R06_4(ctx), rule_R06_5(ctx)]
 
 
 META = {
